@@ -263,6 +263,8 @@ def build_goto(g, wd, env, pid="X"):
         units.append((os.path.join(VERIF, "lib/cbmc_shims.c"), []))
     for s in g["stubs"]:
         units.append((os.path.join(VERIF, s), hdefs))
+    if g["arch"] == 32:
+        units.append((os.path.join(VERIF, "stubs/libc32.c"), []))
     for s in g["srcs"]:
         extra = list(sdefs)
         if s.endswith("core/util.c") and not g["no_shims"]:
@@ -751,7 +753,7 @@ def run_group(pid, g, tier, seed, keep=False):
             ids = [m.group(1) for m in re.finditer(r"^Loop (\S+):", lout, re.M)]
             g = dict(g)
             g["unwindset"] = list(g["unwindset"]) + ["%s:%d" % (i, g["spec_unwind"]) for i in ids
-                                                     if re.match(r"^(h_|r_|o_|ct_|v_|mon_|spec_)", i)]
+                                                     if re.match(r"^(h_|r_|o_|ct_|v_|mon_|spec_|memcpy\.|memmove\.|memset\.|memcmp\.)", i)]
         cr = run_cbmc(g, binary, env)
         R["backend_used"] = cr["backend"]
         R["solver_wall_s"] = round(cr["wall"], 2)
